@@ -360,6 +360,36 @@ pub fn cross_size(ctx: &Ctx, rep: &mut Report) {
     rep.merge(r);
     rep.require("call_histories", 50);
     rep.require("valid_operations_after_a_rejected_length", 30);
+    // the same operations while a thread is being torn down (see C13)
+    let r = par_for(ctx.sz(64, 800), ncpu(), |ti, rep| {
+        let mut rng = rng_for(ctx.seed, &format!("c11-teardown-{}", ti));
+        let n = 1usize << rng.gen_range(0..=10);
+        let a: Vec<i64> = (0..n).map(|_| rng.gen_range(0..Q)).collect();
+        let b: Vec<i64> = (0..n).map(|_| rng.gen_range(0..Q)).collect();
+        let warm = ti % 3 != 2;
+        let res = crate::util::run_at_thread_exit(
+            move || {
+                if warm {
+                    let w: Vec<i16> = (0..n).map(|i| (i % 100) as i16).collect();
+                    let _ = vh::intt(&vh::ntt(&w));
+                }
+            },
+            move || {
+                let mut rep = Report::new();
+                check_pair(&a, &b, "thread exit", &mut rep);
+                rep.violations.first().map(|v| format!("{}: {}", v.signature, v.detail))
+            },
+        );
+        rep.evaluations += 1;
+        match res {
+            Ok(None) => rep.count("operations_during_thread_exit", 1),
+            Ok(Some(what)) => rep.violation("ntt:wrong-during-thread-exit", format!("n={}: {}", n, what), json!({"kind": "teardown", "n": n, "ti": ti})),
+            Err(e) if e.contains("did not run") => rep.inconclusive(e),
+            Err(e) => rep.violation("panic:ntt-during-thread-exit", format!("n={}: {}", n, e), json!({"kind": "teardown", "n": n, "ti": ti})),
+        }
+    });
+    rep.merge(r);
+    rep.require("operations_during_thread_exit", 30);
     rep.sample(json!({"walks": rounds, "sizes": sizes, "inputs": "the same low-degree coefficients embedded in every length, in one thread"}));
     rep.require("cross_size_walks", 3);
 }
